@@ -72,6 +72,20 @@ CLAIMED = {
         note="Closed-shell, spin-independent Hamiltonians only (as the statement requires); local reconfiguration re-synchronises the permuted copy (order dependent by design); <= 8 walkers, 4 orbitals.",
         design_ref="DESIGN.md section 5, C14",
     ),
+    "C09": dict(
+        name="weights_invariants",
+        technique="deterministic simulation with fault injection: seeded step/block histories for all seven propagators under hostile parameters with injected finite extreme field values (tails to 40 sigma, components to 1e300), invariants after every operation and, inside compiled sampler/driver loops on a simulated communicator, by a harness propagator after every step",
+        text=(
+            "Seeded exploration of long histories (20-80 operations: step, tail step, huge single field component, QR, local reconfiguration, "
+            "real sampler block) for propagator_restricted, _unrestricted, _cpmc, _cpmc_slow, _cpmc_nn, _cpmc_nn_slow and _cpmc_continuous with "
+            "dt from 1e-4 to 2, interaction scale 0.1-20, U 1-64 and poor trials; plus the real sampler entry points and complete driver runs "
+            "on 1-3 simulated ranks with a field-fault table applied inside the compiled loops. Invariants after every operation: weights "
+            "real, finite, >= 0, <= 100; phaseless step factor in {0} U [1e-3,100]; weight 0 stays 0 except across a reconfiguration; "
+            "shift finite while total weight > 0; equal positive weights after a reconfiguration; killed fraction in [0,1]."
+        ),
+        note="Only finite field values are injected; populations start from finite non-zero overlaps (checked); CPMC has no documented per-step window, so only finiteness, sign, cap and dead-stays-dead are demanded there.",
+        design_ref="DESIGN.md section 5, C09",
+    ),
 }
 
 NOT_APPLICABLE = {
@@ -91,7 +105,7 @@ NOT_APPLICABLE = {
 # properties planned as simulation targets whose check is not built yet
 PENDING = {
     k: "planned simulation target (DESIGN.md section 5); its check is not built yet, so nothing is claimed for it in this commit"
-    for k in ["C04", "C05", "C09", "C10", "C11"]
+    for k in ["C04", "C05", "C10", "C11"]
 }
 
 
